@@ -12,13 +12,13 @@ theorem closer_follows {o c : PToken} (hc : isCloseFor (getDefinition o.type).1 
     closerFollows (c :: r) = true := by
   rcases hc with ⟨_, h⟩ | ⟨_, h⟩ <;> simp [closerFollows, h, isFiller, isSeparator, isCloser]
 
-theorem opd_bracket_trail {inner : List PToken} {ls : Bool} (pre : List PToken) (o c t : PToken)
+theorem opd_bracket_trail {k : Nat} {inner : List PToken} {ls : Bool} (pre : List PToken) (o c t : PToken)
     (wsA ws1 ws2 : List PToken) (hng : ((getDefinition o.type).1 == Definition.group) = false)
-    (hin : ExprOK false inner ls) (hpre : ∀ p ∈ pre, isPrefixTok p = true) (ho : isOpenTok o = true)
+    (hin : ExprOK k false inner ls) (hpre : ∀ p ∈ pre, isPrefixTok p = true) (ho : isOpenTok o = true)
     (hc : isCloseFor (getDefinition o.type).1 c) (hwA : ∀ w ∈ wsA, isFillTok w = true)
     (hw1 : ∀ w ∈ ws1, isTriviaTok w = true) (ht : t.type = .subexpression) (hw2 : ∀ w ∈ ws2, isFillTok w = true)
     (hne : inner ≠ []) :
-    OpdOK (pre ++ (o :: (wsA ++ (inner ++ (ws1 ++ (t :: (ws2 ++ [c]))))))) := by
+    OpdOK (k + 1) (pre ++ (o :: (wsA ++ (inner ++ (ws1 ++ (t :: (ws2 ++ [c]))))))) := by
   intro st1 ug hO hprios hcg pos hnum rest
   have htsep : isSepTok t = true := by unfold isSepTok; rw [ht]; rfl
   have htd : (getDefinition t.type).1 = .subexpression := by rw [ht]; rfl
@@ -32,7 +32,7 @@ theorem opd_bracket_trail {inner : List PToken} {ls : Bool} (pre : List PToken) 
   have hgO : sO'.nodes[(pushP st1 pre).nodes.size]? = some ⟨(getDefinition o.type).1, .startGrouping,
       (pushP st1 pre).nextParent, none, some ((pushP st1 pre).nodes.size + 1), o⟩ := by rw [hnO']; simp
   -- the inner expression
-  obtain ⟨stE, E, re, cbE, hloopE, hinvE, hgsE, hcgE, ho1E, ho2E, hrdE, hrefE⟩ :=
+  obtain ⟨stE, E, re, cbE, hloopE, hinvE, hgsE, hcgE, ho1E, ho2E, hrdE, hcntE, hrefE⟩ :=
     hin sO' _ _ _ hOO' hfs hpriosO hcgO hkO hspO _ hnumI ((ws1 ++ (t :: (ws2 ++ [c]))) ++ rest)
   have hkE : KindOK stE (some (pushP st1 pre).nodes.size) false :=
     hkO.transfer (base := (pushP st1 pre).nodes.size + 1) (fun g hg => by injection hg with hg; omega) ho2E
@@ -113,7 +113,13 @@ theorem opd_bracket_trail {inner : List PToken} {ls : Bool} (pre : List PToken) 
     (by show (if s1'.groupStack.pop.isEmpty then none else some (s1'.groupStack.pop.size - 1)) = _
         rw [hpop]; exact hcg.symm)
     rfl hsd pos _ hnum
-  refine ⟨stepCU s1' (pushP st1 pre).nodes.size false c nodes2, _, _, _, ?_, hres, hPl, ?_⟩
+  have hcnt : (chainR st1.nodes.size (pre.map (·.col)) (.node .nil (pushP st1 pre).nodes.size o.col E)).inorder.length +
+      st1.nodes.size + (k + 1) = (stepCU s1' (pushP st1 pre).nodes.size false c nodes2).nodes.size := by
+    show _ = nodes2.size
+    rw [hs2, hnE1s, chainR_inorder, List.length_map]
+    simp only [Tree.inorder, List.nil_append, List.length_append, List.length_range', List.length_cons]
+    omega
+  refine ⟨stepCU s1' (pushP st1 pre).nodes.size false c nodes2, _, _, _, ?_, hres, hPl, hcnt, ?_⟩
   · have e3 : inner ++ (ws1 ++ (t :: (ws2 ++ [c]))) ++ rest = inner ++ ((ws1 ++ (t :: (ws2 ++ [c]))) ++ rest) := by simp
     have e4 : (ws1 ++ (t :: (ws2 ++ [c]))) ++ rest = ws1 ++ ((t :: (ws2 ++ [c])) ++ rest) := by simp
     rw [hloopO, e3, hloopE, e4, hloopW1]
